@@ -181,8 +181,8 @@ func genC01(tier string) []Scenario {
 	}
 	prepVals := []any{pvPtr, nil, 7, "s", pvMap}
 	for kind := 0; kind < numKinds; kind++ {
-		for n := 1; n <= maxN; n++ {
-			if !kindExposesRetry(kind) && n > 1 {
+		for n := -1; n <= maxN; n++ {
+			if !kindExposesRetry(kind) && n != 1 {
 				continue
 			}
 			for _, fb := range []bool{false, true} {
@@ -197,6 +197,9 @@ func genC01(tier string) []Scenario {
 					sp := &spec{id: "n", kind: kind, n: n, fb: fb}
 					name := fmt.Sprintf("lifecycle kind=%s N=%d fallback=%v place=%s", kindNames[kind], n, fb, placeName(place))
 					out = append(out, lifecycleScenario(name, sp, place, fullMenu(pv)))
+					if n < 1 {
+						continue // budgets below 1 (one attempt, never a post without an exec result): plain runs only
+					}
 					if (n <= 2 || (tier == "thorough" && n <= 5)) && place != placeOnlyInFlow {
 						out = append(out, lifecycleScenarioRuns(name+" runs=2(same node object)", sp, place, fullMenu(pv[:2]), 2))
 					}
